@@ -8,6 +8,7 @@ import VlsModel.Lemmas.HandlerFn
 import VlsModel.Gen.FnEnforceTest
 import VlsModel.Gen.FnChannelSlotId
 import VlsModel.Gen.FnChannelValidate
+import VlsModel.Gen.FnChannelTestSetters
 /-
 C01 — the progression check in front of the holder counter, `Validator::set_next_holder_commit_num`
 (`vls-core/src/policy/validator.rs:256`, a default method of `trait Validator`, mechanism "set_next_holder_commit_num
@@ -846,6 +847,122 @@ example :
   exact C01_fn_validate_phase2_needs_signatures _ _ _ _ _ _ _ _ _ _ _ _ _ _ _ _ _ _ _ _ _ _ _ _ _
     (by intro _ _ _ u; simp [Rs.fail]) r
 
+/-- **phase 1, `Channel::validate_holder_commitment_tx` (channel.rs:2461, behind `ValidateCommitmentTx`)** on its generated body:
+    `Ok` ⇒ point guard, `make_validated_recomposed_holder_commitment_tx` (decode + policy + recomposition, external) accepted the
+    presented transaction, `check_holder_tx_signatures` accepted the request's signatures on the RECOMPOSED transaction, the
+    payment check passed; staged = the decoded content with the request's signatures, only for `n = next`, written before `Ok`. -/
+theorem C01_fn_validate_holder_commitment_tx {Transaction : Type}
+    (validator : Validator) (unchecked : Nat → PublicKey) (mkKeys : PublicKey → TxCreationKeys)
+    (recompose : Transaction → List (List Nat) → Nat → PublicKey → TxCreationKeys → Nat → List (HTLCInfo2 PaymentHash) →
+        List (HTLCInfo2 PaymentHash) → Rs.M (CommitmentTransaction × CommitmentInfo2 PaymentHash × PaymentSummary))
+    (node : Node) (getState : Node → NodeState)
+    (claimable : EnforcementState PaymentHash CommitmentSignatures → NodeState → Option (CommitmentInfo2 PaymentHash) →
+        Option (CommitmentInfo2 PaymentHash) → ChannelSetup → Rs.M BalanceDelta)
+    (checkSigs : PublicKey → TxCreationKeys → Nat → Signature → List Signature → CommitmentTransaction → Rs.M Unit)
+    (outgoing : EnforcementState PaymentHash CommitmentSignatures → Option (CommitmentInfo2 PaymentHash) →
+        Option (CommitmentInfo2 PaymentHash) → PaymentSummary)
+    (validatePayments : NodeState → ChannelId → PaymentSummary → PaymentSummary → BalanceDelta → Validator → Rs.M Unit)
+    (mkSigs : Signature → List Signature → CommitmentSignatures)
+    (persist : EnforcementState PaymentHash CommitmentSignatures → Rs.M Unit)
+    (self self' : Channel PaymentHash CommitmentSignatures ChannelId) (tx : Transaction) (ws : List (List Nat)) (n feerate : Nat)
+    (off recv : List (HTLCInfo2 PaymentHash)) (csig : Signature) (hsigs : List Signature)
+    (h : Channel.validate_holder_commitment_tx validator unchecked mkKeys recompose node getState claimable checkSigs outgoing
+           validatePayments mkSigs persist self tx ws n feerate off recv csig hsigs = .ok self') :
+    ∃ rtx info2 incoming delta,
+      n ≤ self.enforcement_state.next_holder_commit_num + 1 ∧
+      recompose tx ws n (unchecked n) (mkKeys (unchecked n)) feerate off recv = .ok (rtx, info2, incoming) ∧
+      checkSigs (unchecked n) (mkKeys (unchecked n)) feerate csig hsigs rtx = .ok () ∧
+      claimable self.enforcement_state (getState node) (some info2) none self.setup = .ok delta ∧
+      validatePayments (getState node) self.id0 incoming (outgoing self.enforcement_state (some info2) none) delta validator
+        = .ok () ∧
+      ((n = self.enforcement_state.next_holder_commit_num ∧
+          self' = { self with enforcement_state :=
+                      { self.enforcement_state with next_holder_commit_info := some (info2, mkSigs csig hsigs) } } ∧
+          persist self'.enforcement_state = .ok ())
+       ∨ (n ≠ self.enforcement_state.next_holder_commit_num ∧ self' = self)) := by
+  unfold Channel.validate_holder_commitment_tx at h
+  obtain ⟨pt, hpt, h⟩ := vp_bind_ok h
+  have hptv : n ≤ self.enforcement_state.next_holder_commit_num + 1 ∧ pt = unchecked n := by
+    unfold Channel.get_per_commitment_point at hpt
+    obtain ⟨t, ht, hpt⟩ := vp_bind_ok hpt
+    have htv : t = self.enforcement_state.next_holder_commit_num + 1 := by
+      unfold Rs.uadd at ht; split at ht
+      · exact (Except.ok.inj ht).symm
+      · cases ht
+    by_cases hg : n > t
+    · simp [hg, Rs.fail] at hpt
+    · simp only [hg, decide_false] at hpt
+      have := Except.ok.inj hpt
+      exact ⟨by omega, this.symm⟩
+  obtain ⟨hle, hpte⟩ := hptv
+  subst hpte
+  obtain ⟨⟨rtx, info2, incoming⟩, hrec, h⟩ := vp_bind_ok h
+  obtain ⟨delta, hdelta, h⟩ := vp_bind_ok h
+  obtain ⟨u2, hsig, h⟩ := vp_bind_ok h
+  obtain ⟨u3, hpay, h⟩ := vp_bind_ok h
+  dsimp only at h
+  refine ⟨rtx, info2, incoming, delta, hle, hrec, by cases u2; exact hsig, hdelta, by cases u3; exact hpay, ?_⟩
+  by_cases hn : n = self.enforcement_state.next_holder_commit_num
+  · left
+    have hb : (n == self.enforcement_state.next_holder_commit_num) = true := by simp [hn]
+    rw [if_pos hb] at h
+    obtain ⟨u, hper, h⟩ := vp_bind_ok h
+    have e2 := Except.ok.inj h
+    subst e2
+    exact ⟨hn, rfl, by cases u; exact hper⟩
+  · right
+    have hb : ¬ ((n == self.enforcement_state.next_holder_commit_num) = true) := by simp [hn]
+    rw [if_neg hb] at h
+    have e2 := Except.ok.inj h
+    subst e2
+    exact ⟨hn, rfl⟩
+
+/-- non-vacuity (phase 1): with accepting externals the successor 1 of a channel at `next = 1` is staged and written -/
+example :
+    let self : Channel Nat Nat Nat :=
+      { enforcement_state := { next_holder_commit_num := 1, next_holder_commit_info := none }, setup := ⟨⟩, id0 := 0 }
+    let info : CommitmentInfo2 Nat := { offered_htlcs := [], received_htlcs := [] }
+    Channel.validate_holder_commitment_tx (Transaction := Nat) (PublicKey := Nat) (Node := Unit) (NodeState := Unit)
+        (BalanceDelta := Unit) (PaymentSummary := Unit) (Validator := Unit) (TxCreationKeys := Nat) (CommitmentTransaction := Nat)
+        (Signature := Nat)
+        () (fun n => n) id (fun tx _ _ _ _ _ _ _ => .ok (tx, info, ())) () (fun _ => ()) (fun _ _ _ _ _ => .ok ())
+        (fun _ _ _ _ _ _ => .ok ()) (fun _ _ _ => ()) (fun _ _ _ _ _ _ => .ok ()) (fun c hs => c + hs.length) (fun _ => .ok ())
+        self 9 [] 1 253 [] [] 40 [1, 2]
+      = .ok { self with enforcement_state := { next_holder_commit_num := 1, next_holder_commit_info := some (info, 42) } } := by
+  rfl
+
 end ValidatePhase2
+
+/-! ### Round 10: the `Channel` wrappers of the test-only setters (`Gen/FnChannelTestSetters.lean`, channel.rs:521, 641, 651)
+
+compiled only under `cfg(test)` / feature `test_utils`.  On their generated bodies: each wrapper replaces the enforcement state by
+the result of the `EnforcementState` setter of the same name and does nothing else; instantiated with the generated setters of
+`Gen/FnEnforceTest.lean` (tied to the model's unguarded steps above) the wrapper IS that setter on the channel's state. -/
+section ChannelTestSetters
+
+theorem C01_fn_channel_set_next_holder_commit_num_for_testing {PK : Type}
+    (ch : Gen.FnChannelTestSetters.Channel (Gen.FnEnforceTest.EnforcementState PK)) (num : Nat) :
+    Gen.FnChannelTestSetters.Channel.set_next_holder_commit_num_for_testing
+        Gen.FnEnforceTest.EnforcementState.set_next_holder_commit_num_for_testing ch num
+      = { enforcement_state := Gen.FnEnforceTest.EnforcementState.set_next_holder_commit_num_for_testing ch.enforcement_state num } :=
+  rfl
+
+theorem C01_fn_channel_set_next_counterparty_commit_num_for_testing {PK : Type}
+    (ch : Gen.FnChannelTestSetters.Channel (Gen.FnEnforceTest.EnforcementState PK)) (num : Nat) (pt : PK) :
+    Gen.FnChannelTestSetters.Channel.set_next_counterparty_commit_num_for_testing
+        Gen.FnEnforceTest.EnforcementState.set_next_counterparty_commit_num_for_testing ch num pt
+      = { enforcement_state :=
+            Gen.FnEnforceTest.EnforcementState.set_next_counterparty_commit_num_for_testing ch.enforcement_state num pt } :=
+  rfl
+
+theorem C01_fn_channel_set_next_counterparty_revoke_num_for_testing {PK : Type}
+    (ch : Gen.FnChannelTestSetters.Channel (Gen.FnEnforceTest.EnforcementState PK)) (num : Nat) :
+    Gen.FnChannelTestSetters.Channel.set_next_counterparty_revoke_num_for_testing
+        Gen.FnEnforceTest.EnforcementState.set_next_counterparty_revoke_num_for_testing ch num
+      = { enforcement_state :=
+            Gen.FnEnforceTest.EnforcementState.set_next_counterparty_revoke_num_for_testing ch.enforcement_state num } :=
+  rfl
+
+end ChannelTestSetters
 
 end VlsModel.Props.C01Fn
